@@ -267,6 +267,60 @@ pub fn churn_conservation<const ROUNDS: usize, const LAG: u8>() {
     std::mem::forget(mgr);
 }
 
+
+// C17 handle churn as the queue performs it: every cloned-and-dropped handle registers a token
+// (get_token) and unregisters it again (remove_token, which RETIRES the token).  Two fixed handles
+// stay registered and announce every epoch they see.  ROUNDS x 21 token cycles; the retired tokens
+// must be reclaimed as the cycles go on: at most two batches may still be held at the end.
+pub fn churn_tokens<const ROUNDS: usize>() {
+    sched::configure(0, 0, 0, 0);
+    let mgr = MemoryManager::new();
+    let t1 = mgr.get_token();
+    let t2 = mgr.get_token();
+    let frees0 = al().total_frees;
+    let mut retired: u32 = 0;
+    let mut round = 0;
+    while round < ROUNDS {
+        if mgr.signal.load(Ordering::Relaxed).get_epoch() {
+            mgr.update_token(t1);
+        }
+        if mgr.signal.load(Ordering::Relaxed).get_epoch() {
+            mgr.update_token(t2);
+        }
+        let mut i = 0;
+        while i < 21 {
+            let t = mgr.get_token();
+            mgr.remove_token(t);
+            retired += 1;
+            i += 1;
+        }
+        let (w, b) = mgr.verif_pending();
+        let freed = al().total_frees - frees0;
+        assert!(
+            retired == freed + w as u32 + b as u32,
+            "C17: retired bookkeeping memory was lost (neither freed nor pending): memory grows with churn"
+        );
+        round += 1;
+    }
+    mgr.update_token(t1);
+    mgr.update_token(t2);
+    let t = mgr.get_token();
+    mgr.remove_token(t);
+    retired += 1;
+    let (w, b) = mgr.verif_pending();
+    let freed = al().total_frees - frees0;
+    assert!(
+        retired == freed + w as u32 + b as u32,
+        "C17: retired bookkeeping memory was lost (neither freed nor pending): memory grows with churn"
+    );
+    assert!(
+        (w + b) as u32 <= 42,
+        "C17: with every handle announcing, the tokens retired by handle clone/drop cycles are never reclaimed (more than two batches still held)"
+    );
+    kani::cover!(freed >= 21, "a batch of retired tokens was reclaimed");
+    std::mem::forget(mgr);
+}
+crate::mq_harness_real!(c17_churn_tokens_r3, hk_c17_churn_tokens_r3, Idle, churn_tokens::<3>());
 crate::mq_harness_real!(c17_churn_r2, hk_c17_churn_r2, Idle, churn_conservation::<2, 2>());
 crate::mq_harness_real!(c17_churn_r3_nolag, hk_c17_churn_r3_nolag, Idle, churn_conservation::<3, 0>());
 crate::mq_harness_real!(c17_churn_r3_lag, hk_c17_churn_r3_lag, Idle, churn_conservation::<3, 1>());
@@ -301,9 +355,21 @@ impl<F: Fl> Prog for WqDrop<F> {
 }
 
 pub fn wholequeue_drop<F: Fl, const OUTER: usize>(preload: usize, budget: u8, kinds: u16) {
+    wholequeue_drop_at::<F, OUTER>(preload, budget, kinds, 0)
+}
+
+/// `force_site` != 0: forced-site mode (DESIGN.md 4) - at the `force_site`-th window site of the drop ALL four
+/// operations of the others run, unconditionally and in the one order that completes a reclamation cycle inside
+/// the window: add_stream (retires the list the dropping thread may be holding; 21st retirement -> new epoch),
+/// rx1.try_recv (rx1 announces), tx0.try_send (tx0 announces), drop(rx2) (its retirements run try_freeing).
+/// Nothing but the payloads is symbolic, so the structural operations stay concrete (DESIGN.md 2, lesson (2)).
+pub fn wholequeue_drop_at<F: Fl, const OUTER: usize>(preload: usize, budget: u8, kinds: u16, force_site: u16) {
     crate::ledger::reset();
     payload::reset();
     sched::configure(1, budget, kinds, 4);
+    if force_site != 0 {
+        sched::force(force_site, 4, [1, 1, 2, 1]);
+    }
     let mut w = World::<F>::new(2);
     set_world::<F>(&mut *w);
     w.rx[1] = Some(F::add_stream(w.rx[0].as_ref().unwrap()));
@@ -318,6 +384,10 @@ pub fn wholequeue_drop<F: Fl, const OUTER: usize>(preload: usize, budget: u8, ki
     run_concurrent::<WqDrop<F>, OUTER>();
     kani::cover!(sched::st().injected >= 3, "three operations ran inside the removal");
     kani::cover!(al().total_frees - frees0 >= preload as u32, "a reclamation cycle freed the pre-loaded batch");
+    kani::cover!(
+        force_site == 0 || sched::st().site_no < force_site,
+        "not in forced-site mode, or the forced site lies past the end of the outer operation"
+    );
     let _ = &w; // ManuallyDrop: never dropped
 }
 
@@ -325,6 +395,21 @@ pub const PTR_AND_LOCK_KINDS: u16 = (1 << 3) | (1 << 4) | (1 << 9) | (1 << 10) |
 
 crate::mq_harness_real!(c16_wq_drop_ptrwin, hk_c16_wq_drop_ptrwin, Runner<WqDrop<BcB>, 0>, wholequeue_drop::<BcB, 0>(19, 4, PTR_AND_LOCK_KINDS));
 crate::mq_harness_real!(c16_wq_drop_seq, hk_c16_wq_drop_seq, Runner<WqDrop<BcB>, 0>, wholequeue_drop::<BcB, 0>(19, 0, 0));
+
+// forced-site family: one harness per window site of the drop (pointer cells, locks, allocation calls)
+macro_rules! wq_forced {
+    ($($name:ident, $hk:ident, $k:expr;)*) => {
+        $(crate::mq_harness_real!($name, $hk, Runner<WqDrop<BcB>, 0>, wholequeue_drop_at::<BcB, 0>(19, 4, PTR_AND_LOCK_KINDS, $k));)*
+    };
+}
+wq_forced! {
+    c16_wq_drop_f01, hk_c16_wq_drop_f01, 1; c16_wq_drop_f02, hk_c16_wq_drop_f02, 2; c16_wq_drop_f03, hk_c16_wq_drop_f03, 3;
+    c16_wq_drop_f04, hk_c16_wq_drop_f04, 4; c16_wq_drop_f05, hk_c16_wq_drop_f05, 5; c16_wq_drop_f06, hk_c16_wq_drop_f06, 6;
+    c16_wq_drop_f07, hk_c16_wq_drop_f07, 7; c16_wq_drop_f08, hk_c16_wq_drop_f08, 8; c16_wq_drop_f09, hk_c16_wq_drop_f09, 9;
+    c16_wq_drop_f10, hk_c16_wq_drop_f10, 10; c16_wq_drop_f11, hk_c16_wq_drop_f11, 11; c16_wq_drop_f12, hk_c16_wq_drop_f12, 12;
+    c16_wq_drop_f13, hk_c16_wq_drop_f13, 13; c16_wq_drop_f14, hk_c16_wq_drop_f14, 14; c16_wq_drop_f15, hk_c16_wq_drop_f15, 15;
+    c16_wq_drop_f16, hk_c16_wq_drop_f16, 16;
+}
 
 // nesting depth 2: the writer's scan is preempted by the consumer's add_stream / remove_reader, and
 // inside those (e.g. between two steps of MemoryManager::free) a third handle retires one more object
